@@ -26,7 +26,7 @@ Proof. reflexivity. Qed.
 Lemma totals_snap users dens ok st : zsum (map snd (o_dapps (snap users dens ok st))) = sum_totals (dapps st).
 Proof. simpl. rewrite map_map. reflexivity. Qed.
 
-Lemma state_clauses_sound c N Us users dens ok st : Inv c N Us st -> state_clauses c (snap users dens ok st) = [].
+Lemma state_clauses_sound c N Us users dens ok st : Inv c N Us st -> state_clauses (max_thr c) (snap users dens ok st) = [].
 Proof.
   intros I. unfold state_clauses. apply cl3.
   3: { rewrite totals_snap. simpl. pose proof (i_held _ _ _ _ I). lia. }
@@ -124,5 +124,5 @@ End UserStep.
 (* observed-state clauses after any history of the repaired tree *)
 Lemma state_clauses_sound_fixed v c users dens ok ops l :
   fixed v -> 0 <= bal MOD UKEX l -> Forall wf_op ops ->
-  state_clauses c (snap users dens ok (run v c ops (empty_state l))) = [].
+  state_clauses (max_thr c) (snap users dens ok (run v c ops (empty_state l))) = [].
 Proof. intros Hf Hl W. eapply state_clauses_sound. apply (fixed_inv v c Hf ops l Hl W). Qed.
